@@ -83,6 +83,8 @@ int range_del(const void *p, size_t n) {
 int range_count() { return g_nranges; }
 void reset_case_state() { g_tick = 0; g_trace_n = 0; g_nranges = 0; memset(g_slots, 0, sizeof g_slots); }
 
+bool g_abort_on_fail = false;      // libFuzzer mode: a verdict must look like a crash
+
 [[noreturn]] void fail(const char *fmt, ...) {
     char msg[1000];
     va_list ap; va_start(ap, fmt); vsnprintf(msg, sizeof msg, fmt, ap); va_end(ap);
@@ -90,6 +92,7 @@ void reset_case_state() { g_tick = 0; g_trace_n = 0; g_nranges = 0; memset(g_slo
     s.code = vrt::EXIT_VIOLATION;
     snprintf(s.msg, sizeof s.msg, "%s", msg);
     fprintf(stderr, "VERDICT violation: %s\n", msg);
+    if (g_abort_on_fail) abort();
     _exit(vrt::EXIT_VIOLATION);
 }
 
@@ -119,6 +122,7 @@ static void child_on_die(int code, const char *msg) {
     snprintf(s.msg, sizeof s.msg, "%s", msg);
     s.stats = vrt::stats();
     fprintf(stderr, "VERDICT code=%d: %s\n", code, msg);
+    if (hz::g_abort_on_fail) abort();
 }
 
 static void redirect_stderr(const char *stderr_path) {
@@ -156,6 +160,8 @@ static void run_case_here(const Case &c) {
     s.finished = 1;
     vrt::shutdown();
 }
+
+void run_case_inprocess(const Case &c) { run_case_here(c); }
 
 static void ensure_shared() {
     if (hz::g_shared) return;
